@@ -28,7 +28,7 @@ import (
 const prop = "C09"
 
 const (
-	kfOffset    = "KF-C09-inputoffset-after-unescape"
+	kfOffset    = "FX-C09-inputoffset-after-unescape"
 	kfReaderErr = "KF-C09-reader-error-swallowed"
 	kfBadUTF8   = "KF-C09-invalid-utf8-kept-by-buffer-decoder"
 	kfNul       = "KF-C05-stream-nul-ends-input"
